@@ -132,6 +132,10 @@ func main() {
 
 var buildMu sync.Mutex
 
+// coverMode: VERIF_COVER=1 (or the thorough tier) builds the workers with statement-coverage instrumentation
+// of the /repo packages; the evidence then reports how much of each package the workloads actually executed.
+var coverMode bool
+
 func buildWorker(race bool) (string, error) {
 	buildMu.Lock()
 	defer buildMu.Unlock()
@@ -140,6 +144,10 @@ func buildWorker(race bool) (string, error) {
 	if race {
 		name = "vworker-race"
 		args = append(args, "-race")
+	}
+	if coverMode {
+		name += "-cover"
+		args = append(args, "-cover", "-covermode=atomic", "-coverpkg=github.com/xelaj/mtproto/...")
 	}
 	out := filepath.Join(root, "out", "bin", name)
 	os.MkdirAll(filepath.Dir(out), 0o755)
@@ -164,6 +172,10 @@ func runCheck(sp *spec, tier string, seed int64) int {
 	os.MkdirAll(filepath.Join(root, "out", "replay"), 0o755)
 	os.MkdirAll(filepath.Join(root, "evidence"), 0o755)
 
+	coverMode = os.Getenv("VERIF_COVER") == "1"
+	if coverMode {
+		os.MkdirAll(filepath.Join(r.outDir, "cover"), 0o755)
+	}
 	if err := selfTest(); err != nil {
 		fmt.Printf("INCONCLUSIVE property=%s reference self-test failed: %v\n", sp.ID, err)
 		return 2
@@ -197,6 +209,9 @@ func runCheck(sp *spec, tier string, seed int64) int {
 	}
 	if sp.Post != nil {
 		sp.Post(r)
+	}
+	if coverMode {
+		r.coverageReport()
 	}
 	return r.finish(t0)
 }
@@ -241,6 +256,9 @@ func (r *run) runShard(w wlSpec, bin string, s, n int) {
 			env = append(env, "GORACE=halt_on_error=0 exitcode=0 log_path="+base+".race")
 		}
 		env = append(env, "GOTRACEBACK=all", "VERIF_ROOT="+root)
+		if coverMode {
+			env = append(env, "GOCOVERDIR="+filepath.Join(r.outDir, "cover"))
+		}
 		cmd.Env = env
 		so, _ := os.Create(base + ".out")
 		se, _ := os.Create(base + ".err")
@@ -653,4 +671,54 @@ func replay(path string) int {
 	}
 	fmt.Println("not reproduced")
 	return 0
+}
+
+// coverageReport summarises GOCOVERDIR data: per-package percentages and, for the root package and the
+// packages the properties are anchored in, the functions that were never entered.
+func (r *run) coverageReport() {
+	dir := filepath.Join(r.outDir, "cover")
+	cmd := exec.Command("go", "tool", "covdata", "percent", "-i="+dir)
+	cmd.Env = goEnv()
+	out, err := cmd.CombinedOutput()
+	if err != nil {
+		r.inconcl = append(r.inconcl, "coverage: "+wkShort(string(out), 200))
+		return
+	}
+	pk := map[string]string{}
+	for _, ln := range strings.Split(string(out), "\n") {
+		f := strings.Fields(ln)
+		if len(f) >= 3 && strings.HasPrefix(f[0], "github.com/xelaj/mtproto") && !strings.Contains(f[0], "zverif") {
+			pk[strings.TrimPrefix(f[0], "github.com/xelaj/")] = f[2]
+		}
+	}
+	r.extra["statement_coverage_by_package"] = pk
+	prof := filepath.Join(r.outDir, "cover.txt")
+	cmd = exec.Command("go", "tool", "covdata", "textfmt", "-i="+dir, "-o="+prof)
+	cmd.Env = goEnv()
+	if b, err := cmd.CombinedOutput(); err != nil {
+		r.inconcl = append(r.inconcl, "coverage textfmt: "+wkShort(string(b), 200))
+		return
+	}
+	cmd = exec.Command("go", "tool", "cover", "-func="+prof)
+	cmd.Dir = filepath.Join(root, "harness")
+	cmd.Env = goEnv()
+	fb, err := cmd.CombinedOutput()
+	if err != nil {
+		return
+	}
+	var never []string
+	funcs := map[string]string{}
+	for _, ln := range strings.Split(string(fb), "\n") {
+		f := strings.Fields(ln)
+		if len(f) != 3 || strings.Contains(f[0], "_gen.go") || strings.Contains(f[0], "zverif") {
+			continue
+		}
+		name := strings.TrimPrefix(f[0], "github.com/xelaj/mtproto/") + " " + f[1]
+		funcs[name] = f[2]
+		if f[2] == "0.0%" {
+			never = append(never, name)
+		}
+	}
+	r.extra["functions_never_entered"] = never
+	r.extra["function_coverage"] = funcs
 }
